@@ -1,4 +1,7 @@
 import PgBifrost.Proofs.LedgerSimple.Main
+import PgBifrost.Model.WorkerLoop
+import PgBifrost.Model.KafkaSend
+import PgBifrost.Model.KinesisRetry
 import PgBifrost.Gen.TrackerSrc
 import PgBifrost.Proofs.LedgerRefine
 import PgBifrost.Proofs.LedgerSpecSound
@@ -366,5 +369,42 @@ theorem tracker_as_in_source :
       cases h : PgBifrost.Ledger.step l (PgBifrost.Sys.writtenOp w) with
       | none => simp
       | some l' => simpa [PgBifrost.Sys.ledApply] using ih l'
+
+/-! ## layer L3: all sink workers share one loop -/
+
+/-- what the Kafka worker's loop sees of a batch -/
+def kafkaIn (o : PgBifrost.KafkaSend.Outcome) : PgBifrost.WorkerLoop.LoopIn :=
+  ⟨o = .cancelled true, o = .otherError, (match o with | .rejected _ => true | _ => false), o = .cancelled false⟩
+
+/-- what the Kinesis worker's loop sees of a batch's retry loop -/
+def kinesisIn (pre : Bool) (r : PgBifrost.KinesisRetry.Result) : PgBifrost.WorkerLoop.LoopIn :=
+  ⟨pre, r = .panicSizeMismatch || r = .panicIndex, r = .exhausted, r = .cancelled⟩
+
+/-- The four sink workers share ONE loop (`Model/WorkerLoop.iteration`; the S3 and RabbitMQ loop bodies are translated
+from the source and proved equal to it in `s3_worker_as_in_source` / `rabbit_loop_as_in_source`, the Kafka and Kinesis
+ones in `kafka_iteration_as_in_source` / `kinesis_iteration_as_in_source`): a batch's transactions are handed to the
+progress tracker exactly when the attempt was made and neither panicked, nor failed, nor was cancelled - for the Kafka
+and the Kinesis worker models this is their `processBatch`. Together with C11-C14 (what "did not fail" means per sink)
+this is the worker layer of "nothing is acknowledged before it is in the sink". -/
+theorem workers_report_only_on_success :
+    (∀ i : PgBifrost.WorkerLoop.LoopIn, (PgBifrost.WorkerLoop.iteration i).reported = true ↔
+        i.preCancelled = false ∧ i.panicked = false ∧ i.err = false ∧ i.cancelled = false) ∧
+    (∀ j : PgBifrost.KafkaSend.Job, (PgBifrost.KafkaSend.processBatch j).reported.isSome =
+        (PgBifrost.WorkerLoop.iteration (kafkaIn j.out)).reported) ∧
+    (∀ (budget : Nat) (j : PgBifrost.KinesisRetry.Job Nat), (PgBifrost.KinesisRetry.processBatch budget j).reported.isSome =
+        (PgBifrost.WorkerLoop.iteration (kinesisIn j.preCancelled (PgBifrost.KinesisRetry.run j.recs j.outs budget).1)).reported) := by
+  refine ⟨PgBifrost.WorkerLoop.reported_iff, ?_, ?_⟩
+  · intro j
+    obtain ⟨p, t, o⟩ := j
+    cases o with
+    | accepted => simp [PgBifrost.KafkaSend.processBatch, kafkaIn, PgBifrost.WorkerLoop.iteration]
+    | rejected i => simp [PgBifrost.KafkaSend.processBatch, kafkaIn, PgBifrost.WorkerLoop.iteration]
+    | otherError => simp [PgBifrost.KafkaSend.processBatch, kafkaIn, PgBifrost.WorkerLoop.iteration]
+    | cancelled b => cases b <;> simp [PgBifrost.KafkaSend.processBatch, kafkaIn, PgBifrost.WorkerLoop.iteration]
+  · intro budget j
+    unfold PgBifrost.KinesisRetry.processBatch kinesisIn
+    cases hp : j.preCancelled
+    · cases hr : (PgBifrost.KinesisRetry.run j.recs j.outs budget).1 <;> simp [hr, PgBifrost.WorkerLoop.iteration]
+    · simp [PgBifrost.WorkerLoop.iteration]
 
 end PgBifrost.Props.C01
